@@ -483,6 +483,46 @@ def feat_spec(rng, m):
     return "+".join(hexs(f) for f in rng.sample(names, k))
 
 
+class CcOps(Comp):
+    """the counter events of ly_ctx_load_module / lys_set_implemented under LY_CTX_EXPLICIT_COMPILE (no compile events):
+    per operation the counter difference, the number of modules added and whether the records changed, vs
+    YangLib.load_op / set_impl_op (lys_set_features change flag, lys_implement, module insertion)"""
+    name = "ccops"
+    driver = "t_yl"
+    slice = "yl"
+
+    def norm(self, line, out):
+        w = out.split(" ")
+        res = []
+        for t in w[1:]:
+            f = t.split(":")
+            if len(f) != 5 or f[0] != "0":
+                res.append("E")
+            else:
+                res.append("%d:%s:%s" % ((int(f[2]) - int(f[1])) % 65536, f[3], f[4]))
+        return " ".join(res)
+
+    def gen(self, rng, tier, scale=1.0):
+        L = []
+        fs = fixed_sets()[3]
+        hx = hexs
+        for opts in (NO_YL | EXPLICIT, EXPLICIT):
+            # regression of the seeded changes C19-6 / C19-7: a call that only disables features, and implementing a module
+            L.append(line_of("chg", opts, fs, ["/", "L:1:*", "I:1:" + hx("c") + "+" + hx("d"), "I:1:" + hx("c"), "I:1:" + hx("c"),
+                                               "I:2:~", "I:2:*", "I:2:-", "L:0:" + hx("a"), "I:0:-", "I:0:" + hx("nosuch")]))
+        for _ in range(self.n(tier, 400, 8000, scale)):
+            ms = gen_set(rng)
+            if rng.random() < 0.3:
+                add_dependencies(rng, ms)
+            opts = rng.choice([NO_YL | EXPLICIT, EXPLICIT])
+            ops = []
+            for _ in range(rng.randrange(2, 9)):
+                j = rng.randrange(len(ms))
+                ops.append("%s:%d:%s" % ("L" if rng.random() < 0.4 else "I", j, feat_spec(rng, ms[j])))
+            L.append(line_of("chg", opts, ms, ["/"] + ops))
+        return L
+
+
 class ChangeCount:
     """C19 on the implementation: after every successful ly_ctx_load_module / lys_set_implemented / ly_ctx_compile that
     changes the module set, the implemented state or the enabled features, ly_ctx_get_change_count() differs from
